@@ -967,6 +967,31 @@ def hist_from_json(j):
     return files, list(j['args']), cmds
 
 
+def undo_corollary():
+    """coq/BufsUndo.v instantiates the abstract line-buffer payload of the C20 theorems with the edit-log model of C04
+    (coq/UndoDefs.v, another group's file) and proves `switching_keeps_undo_stacks`.  It is compiled and its assumptions are
+    printed here; the outcome is recorded in the evidence but is not one of the obligations of Properties_C20.v."""
+    info = {'file': 'coq/BufsUndo.v', 'theorem': 'switching_keeps_undo_stacks', 'compiled': False, 'print_assumptions': None, 'forbidden_tokens': None}
+    try:
+        ok, log = vlib.coq_make(['BufsUndo.vo'])
+        info['compiled'] = bool(ok)
+        if not ok:
+            info['log'] = log[-800:]
+            return info
+        src = vlib.strip_comments(open(os.path.join(vlib.COQ, 'BufsUndo.v')).read())
+        info['forbidden_tokens'] = [m.group(0) for m in vlib.FORBIDDEN.finditer(src)]
+        d = os.path.join(vlib.tmpdir(), 'assum_C20_undo')
+        os.makedirs(d, exist_ok=True)
+        fn = os.path.join(d, 'AssumUndo.v')
+        with open(fn, 'w') as f:
+            f.write('From NV Require Import BufsUndo.\nPrint Assumptions switching_keeps_undo_stacks.\n')
+        r = vlib.sh(['coqc', '-Q', vlib.COQ, 'NV', fn], cwd=d, timeout=600)
+        info['print_assumptions'] = [l for l in r.stdout.split('\n') if l.strip()][-6:]
+    except Exception as e:
+        info['error'] = str(e)
+    return info
+
+
 def run(ctx):
     res = ctx.res
     rng = ctx.rng
@@ -1115,3 +1140,5 @@ def run(ctx):
                                                           'replay_cmd': 'vi -v %s < keys (LINES=24 COLUMNS=80)' % ' '.join(c[0])},
                                'expected': bad[1], 'observed': bad[2]})
     res.extra['model_compared'] = mans is not None
+    if not ctx.replay:
+        res.extra['undo_stack_corollary'] = undo_corollary()
